@@ -73,6 +73,66 @@ pub fn run(seed: u64, tier: &str, out: &mut dyn FnMut(String)) {
         }
         out(format!("( detrun {} {} {} )", pre, enc_list(&posts), nid));
     }
+    // history independence per instruction: a fresh thread first, then the same thread after the SAME
+    // instruction ran on perturbed operands (a cache keyed by part of the operands would be warm), then again
+    // a fresh thread afterwards (process-global state would be warm)
+    let all_names: Vec<String> = instruction_names()
+        .into_iter()
+        .filter(|n| !is_rand(n) && !exposes_ids(n) && n != "EXEC.CMD" && !n.ends_with(".PRINT") && n != "GRAPH.EDGE*HISTORY")
+        .collect();
+    let per = if tier == "thorough" { 120 } else { 24 };
+    for name in all_names.iter() {
+        let heavy = crate::scen_exec::is_size_operand(name);
+        for case in 0..(if heavy { per * 6 } else { per }) {
+            let mut r = Rng::for_case(seed, &format!("dethist:{}", name), case);
+            let rich = r.chance(1, 2);
+            let mut st = gen_state(&mut r, &GenOpts { instrs: &names, rich, item_depth: 2 });
+            st.exec_stack.flush();
+            st.graph_stack.flush();
+            crate::scen_exec::cap_ints(&mut st, 2000);
+            if heavy && r.chance(3, 4) {
+                // well-formed operands of the computation-heavy instructions (radius; dimensions, index, size, position)
+                let size = 2 + r.below(400) as i32;
+                st.float_stack.push(*r.pick(&[0.0f32, 1.0, 1.5, 2.0, 3.0]));
+                st.int_stack.push(1 + r.below(4) as i32);
+                st.int_stack.push(if r.chance(1, 2) { size - 1 } else { r.below(size as u64) as i32 });
+                st.int_stack.push(size);
+                if name.ends_with("VALS") {
+                    st.int_stack.push(r.below(3) as i32);
+                }
+            }
+            st.exec_stack.push(Item::instruction(name.clone()));
+            st.configuration.eval_push_limit = 40;
+            st.configuration.eval_time_limit = 600_000;
+            if !crate::scen_prog::state_within_envelope(&st) {
+                continue;
+            }
+            let pre = enc_state(&st);
+            let nid = next_node_id();
+            let fresh = |p: String| std::thread::spawn(move || run_once(&p)).join().unwrap_or("PANIC".to_string());
+            let mut posts = vec![fresh(pre.clone())];
+            for _ in 0..6 {
+                let mut v = dec_state(&parse_line(&pre).unwrap()[0]).unwrap();
+                let n = v.int_stack.size();
+                if n > 0 {
+                    let pos = r.below(n.min(4) as u64) as usize;
+                    let d = *r.pick(&[-8i32, -5, -3, -2, -1, 1, 2, 3, 5, 8]);
+                    if let Some(x) = v.int_stack.get_mut(pos) {
+                        *x = x.saturating_add(d).min(2000);
+                    }
+                }
+                if r.chance(1, 3) {
+                    if let Some(x) = v.float_stack.get_mut(0) {
+                        *x += 0.5;
+                    }
+                }
+                let _ = run_once(&enc_state(&v));
+            }
+            posts.push(run_once(&pre));
+            posts.push(fresh(pre.clone()));
+            out(format!("( detrun {} {} {} )", pre, enc_list(&posts), nid));
+        }
+    }
     // node ids under concurrent creation
     for &threads in [2usize, 8, 16].iter() {
         let per = if tier == "thorough" { 100_000 } else { 20_000 };
